@@ -1,6 +1,7 @@
 import GomlVerif.Model.StrLit
 /-! unfolding lemmas and the escape/decode round trip for `Model/StrLit.lean` -/
 namespace Goml.StrLit
+open Goml.Gen.StrEscapes
 
 theorem decodeF_nil (f : Nat) : decodeF f [] = some [] := by
   cases f <;> rfl
@@ -25,14 +26,115 @@ theorem acceptsF_plain (f : Nat) (c : Char) (rest : List Char) (h : c ≠ '\\') 
   rw [acceptsF.eq_5] <;> simp_all
 
 theorem acceptsF_simple (f : Nat) (e : Char) (rest : List Char) (h : e ≠ 'u') :
-    acceptsF (f + 1) ('\\' :: e :: rest) = ((simpleEscape e).isSome && acceptsF f rest) := by
+    acceptsF (f + 1) ('\\' :: e :: rest) = (lexEscape e && acceptsF f rest) := by
   rw [acceptsF.eq_4 _ _ _ (fun _ _ _ _ _ hh _ => h hh)]
 
 theorem hex4_control : ∀ n, n < 32 →
     hex4 '0' '0' (hexDigit (n / 16)) (hexDigit (n % 16)) = some n := by decide
 
-theorem control_not_surrogate (n : Nat) (h : n < 32) : isHighSurrogate n = false ∧ isLowSurrogate n = false := by
-  simp [isHighSurrogate, isLowSurrogate]; omega
+theorem isHigh_iff (n : Nat) : isHighSurrogate n = true ↔ (0xD800 ≤ n ∧ n < 0xDC00) := by
+  unfold isHighSurrogate
+  rw [Bool.and_eq_true, decide_eq_true_iff, decide_eq_true_iff]
+  exact Iff.rfl
+theorem isLow_iff (n : Nat) : isLowSurrogate n = true ↔ (0xDC00 ≤ n ∧ n < 0xE000) := by
+  unfold isLowSurrogate
+  rw [Bool.and_eq_true, decide_eq_true_iff, decide_eq_true_iff]
+  exact Iff.rfl
+theorem isHigh_false (n : Nat) (h : n < 0xD800 ∨ 0xDC00 ≤ n) : isHighSurrogate n = false := by
+  cases hb : isHighSurrogate n with
+  | false => rfl
+  | true => have := (isHigh_iff n).mp hb; omega
+theorem isLow_false (n : Nat) (h : n < 0xDC00 ∨ 0xE000 ≤ n) : isLowSurrogate n = false := by
+  cases hb : isLowSurrogate n with
+  | false => rfl
+  | true => have := (isLow_iff n).mp hb; omega
+theorem scalar_some (n : Nat) (h : n < 0xD800 ∨ (0xDFFF < n ∧ n < 0x110000)) : scalar? n = some (Char.ofNat n) := by
+  unfold scalar?; rw [if_pos h]
+theorem scalar_none (n : Nat) (h : ¬ (n < 0xD800 ∨ (0xDFFF < n ∧ n < 0x110000))) : scalar? n = none := by
+  unfold scalar?; rw [if_neg h]
+
+theorem control_not_surrogate (n : Nat) (h : n < 32) : isHighSurrogate n = false ∧ isLowSurrogate n = false :=
+  ⟨isHigh_false n (by omega), isLow_false n (by omega)⟩
+
+/-! ### one `\u` escape -/
+
+theorem decodeF_u (f : Nat) (a b c d : Char) (rest : List Char) :
+    decodeF (f + 1) ('\\' :: 'u' :: a :: b :: c :: d :: rest) =
+      match readU a b c d rest with
+      | some (ch, rest') => (decodeF f rest').map (ch :: ·)
+      | none => none := by
+  rw [decodeF.eq_3]
+  rcases readU a b c d rest with _ | ⟨ch, r⟩ <;> rfl
+
+theorem char_valid (c : Char) : c.toNat < 0xD800 ∨ (0xDFFF < c.toNat ∧ c.toNat < 0x110000) := c.valid
+
+theorem scalar_of_char (c : Char) : scalar? c.toNat = some c := by
+  rw [scalar_some _ (char_valid c), Char.ofNat_toNat]
+
+theorem char_not_surrogate (c : Char) : isHighSurrogate c.toNat = false ∧ isLowSurrogate c.toNat = false := by
+  have := char_valid c
+  exact ⟨isHigh_false _ (by omega), isLow_false _ (by omega)⟩
+
+/-- the generated recombination arithmetic is the UTF-16 formula on the whole range of pairs,
+and its value is a supplementary-plane scalar value -/
+theorem combine_spec (hi lo : Nat) (h1 : highLo ≤ hi) (h2 : hi < highHi) (h3 : lowLo ≤ lo) (h4 : lo < lowHi) :
+    combine hi lo = 0x10000 + (hi - 0xD800) * 0x400 + (lo - 0xDC00) ∧
+      0x10000 ≤ combine hi lo ∧ combine hi lo ≤ 0x10FFFF := by
+  simp only [highLo, highHi, lowLo, lowHi] at h1 h2 h3 h4
+  unfold combine
+  rw [Nat.shiftLeft_eq]
+  have : (2 : Nat) ^ 10 = 1024 := by decide
+  rw [this]
+  refine ⟨?_, ?_, ?_⟩ <;> omega
+
+/-- a BMP escape that is not a surrogate denotes its code point -/
+theorem readU_bmp (a b c d : Char) (rest : List Char) (n : Nat) (h : hex4 a b c d = some n)
+    (hs : n < 0xD800 ∨ 0xDFFF < n) (hb : n < 0x10000) :
+    readU a b c d rest = some (Char.ofNat n, rest) := by
+  have h1 : isHighSurrogate n = false := isHigh_false n (by omega)
+  have h2 : scalar? n = some (Char.ofNat n) := scalar_some n (by omega)
+  simp [readU, h, h1, h2]
+
+/-- **surrogate pairs**: for every high surrogate `hi` and every low surrogate `lo`, however their
+hexadecimal digits are spelled, the pair of escapes denotes exactly the scalar value
+`0x10000 + (hi - 0xD800) * 0x400 + (lo - 0xDC00)` -/
+theorem readU_pair (a b c d a' b' c' d' : Char) (rest : List Char) (hi lo : Nat)
+    (hh : hex4 a b c d = some hi) (hl : hex4 a' b' c' d' = some lo)
+    (h1 : 0xD800 ≤ hi) (h2 : hi < 0xDC00) (h3 : 0xDC00 ≤ lo) (h4 : lo < 0xE000) :
+    readU a b c d ('\\' :: 'u' :: a' :: b' :: c' :: d' :: rest) =
+      some (Char.ofNat (0x10000 + (hi - 0xD800) * 0x400 + (lo - 0xDC00)), rest) := by
+  have hsp := combine_spec hi lo (by simpa [highLo] using h1) (by simpa [highHi] using h2)
+    (by simpa [lowLo] using h3) (by simpa [lowHi] using h4)
+  have i1 : isHighSurrogate hi = true := (isHigh_iff hi).mpr ⟨h1, h2⟩
+  have i2 : isLowSurrogate lo = true := (isLow_iff lo).mpr ⟨h3, h4⟩
+  have i3 : scalar? (combine hi lo) = some (Char.ofNat (combine hi lo)) := scalar_some _ (by omega)
+  simp only [readU, hh, hl, i1, i2, i3, if_true, Option.map_some]
+  rw [hsp.1]
+
+/-- a high surrogate that is not followed by a low-surrogate escape denotes nothing -/
+theorem readU_lone_high (a b c d : Char) (rest : List Char) (hi : Nat) (hh : hex4 a b c d = some hi)
+    (h1 : 0xD800 ≤ hi) (h2 : hi < 0xDC00)
+    (hrest : ∀ a' b' c' d' r lo, rest = '\\' :: 'u' :: a' :: b' :: c' :: d' :: r → hex4 a' b' c' d' = some lo →
+      ¬ (0xDC00 ≤ lo ∧ lo < 0xE000)) :
+    readU a b c d rest = none := by
+  have i1 : isHighSurrogate hi = true := (isHigh_iff hi).mpr ⟨h1, h2⟩
+  simp only [readU, hh, i1, if_true]
+  split
+  · rename_i a' b' c' d' r
+    cases hl : hex4 a' b' c' d' with
+    | none => rfl
+    | some lo =>
+      have := hrest a' b' c' d' r lo rfl hl
+      have i2 : isLowSurrogate lo = false := isLow_false lo (by omega)
+      simp [i2]
+  · rfl
+
+/-- a low surrogate that does not follow a high one denotes nothing -/
+theorem readU_lone_low (a b c d : Char) (rest : List Char) (lo : Nat) (hl : hex4 a b c d = some lo)
+    (h3 : 0xDC00 ≤ lo) (h4 : lo < 0xE000) : readU a b c d rest = none := by
+  have i1 : isHighSurrogate lo = false := isHigh_false lo (by omega)
+  have i3 : scalar? lo = none := scalar_none lo (by omega)
+  simp [readU, hl, i1, i3]
 
 /-- decoding one escaped character -/
 theorem decodeF_escapeChar (f : Nat) (c : Char) (rest : List Char) :
@@ -51,9 +153,8 @@ theorem decodeF_escapeChar (f : Nat) (c : Char) (rest : List Char) :
   split
   · rename_i hc
     simp only [List.cons_append, List.nil_append]
-    rw [decodeF.eq_3]
-    simp only [hex4_control c.toNat hc, (control_not_surrogate c.toNat hc).1,
-      (control_not_surrogate c.toNat hc).2, Bool.false_eq_true, if_false, Char.ofNat_toNat]
+    rw [decodeF_u, readU_bmp _ _ _ _ _ c.toNat (hex4_control c.toNat hc) (by omega) (by omega)]
+    simp only [Char.ofNat_toNat]
   · rename_i h1 h2 _ _ _ _
     exact decodeF_plain f c rest h2
 
@@ -119,6 +220,86 @@ theorem decodeF_noBackslash : ∀ (s : List Char) (f : Nat), s.length ≤ f → 
     rw [decodeF_plain f c cs (h c (List.mem_cons_self ..)),
       ih f (by simp at hf; omega) (fun d hd => h d (List.mem_cons_of_mem _ hd))]
     rfl
+
+/-! ### the all-`\u` encoder -/
+
+theorem hexDigit_ok : ∀ k, k < 16 → isHex (hexDigit k) = true ∧ hexVal (hexDigit k) = k := by decide
+
+theorem hex4_hex4s (n : Nat) (h : n < 65536) :
+    hex4 (hexDigit (n / 4096 % 16)) (hexDigit (n / 256 % 16)) (hexDigit (n / 16 % 16)) (hexDigit (n % 16)) = some n := by
+  have h3 := hexDigit_ok (n / 4096 % 16) (by omega)
+  have h2 := hexDigit_ok (n / 256 % 16) (by omega)
+  have h1 := hexDigit_ok (n / 16 % 16) (by omega)
+  have h0 := hexDigit_ok (n % 16) (by omega)
+  unfold hex4
+  rw [h3.1, h3.2, h2.1, h2.2, h1.1, h1.2, h0.1, h0.2]
+  simp only [Bool.and_self, if_true, Option.some.injEq]
+  omega
+
+theorem decodeF_escapeU (f : Nat) (c : Char) (rest : List Char) :
+    decodeF (f + 1) (escapeU c ++ rest) = (decodeF f rest).map (c :: ·) := by
+  have hv := char_valid c
+  unfold escapeU
+  split
+  · rename_i hb
+    simp only [uesc, hex4s, List.cons_append, List.nil_append]
+    rw [decodeF_u, readU_bmp _ _ _ _ _ c.toNat (hex4_hex4s _ hb) (by omega) hb]
+    simp only [Char.ofNat_toNat]
+  · rename_i hb
+    simp only [uesc, hex4s, List.cons_append, List.nil_append]
+    rw [decodeF_u, readU_pair _ _ _ _ _ _ _ _ _ _ _ (hex4_hex4s _ (by omega)) (hex4_hex4s _ (by omega))
+      (by omega) (by omega) (by omega) (by omega)]
+    have : 0x10000 + (0xD800 + (c.toNat - 0x10000) / 0x400 - 0xD800) * 0x400 +
+        (0xDC00 + (c.toNat - 0x10000) % 0x400 - 0xDC00) = c.toNat := by omega
+    simp only [this, Char.ofNat_toNat]
+
+theorem length_escapeU_pos (c : Char) : 1 ≤ (escapeU c).length := by
+  unfold escapeU; split <;> simp [uesc, hex4s]
+
+/-- decode ∘ (encode everything as `\u` escapes, pairs above U+FFFF) = id -/
+theorem decodeF_escapeAllU : ∀ (s : List Char) (f : Nat), (escapeAllU s).length ≤ f →
+    decodeF f (escapeAllU s) = some s := by
+  intro s
+  induction s with
+  | nil => intro f _; exact decodeF_nil f
+  | cons c cs ih =>
+    intro f hf
+    simp only [escapeAllU, List.length_append] at hf
+    have := length_escapeU_pos c
+    obtain ⟨f, rfl⟩ : ∃ f', f = f' + 1 := ⟨f - 1, by omega⟩
+    rw [escapeAllU, decodeF_escapeU, ih f (by omega)]
+    rfl
+
+theorem acceptsF_uesc (f n : Nat) (rest : List Char) (h : n < 65536) :
+    acceptsF (f + 1) (uesc n ++ rest) = acceptsF f rest := by
+  simp only [uesc, hex4s, List.cons_append, List.nil_append]
+  rw [acceptsF.eq_3, hex4_hex4s n h]
+  rfl
+
+theorem acceptsF_escapeAllU : ∀ (s : List Char) (f : Nat), (escapeAllU s).length ≤ f →
+    acceptsF f (escapeAllU s) = true := by
+  intro s
+  induction s with
+  | nil => intro f _; exact acceptsF_nil f
+  | cons c cs ih =>
+    intro f hf
+    have hv := char_valid c
+    simp only [escapeAllU, List.length_append] at hf
+    rw [escapeAllU]
+    unfold escapeU at hf ⊢
+    split
+    · rename_i hb
+      rw [if_pos hb] at hf
+      simp only [uesc, hex4s, List.length_cons, List.length_nil] at hf
+      obtain ⟨f, rfl⟩ : ∃ f', f = f' + 1 := ⟨f - 1, by omega⟩
+      rw [acceptsF_uesc _ _ _ hb]
+      exact ih f (by omega)
+    · rename_i hb
+      rw [if_neg hb] at hf
+      simp only [uesc, hex4s, List.length_cons, List.length_nil, List.length_append] at hf
+      obtain ⟨f, rfl⟩ : ∃ f', f = f' + 2 := ⟨f - 2, by omega⟩
+      rw [List.append_assoc, acceptsF_uesc _ _ _ (by omega), acceptsF_uesc _ _ _ (by omega)]
+      exact ih f (by omega)
 
 /-! ### multi-line strings -/
 
